@@ -54,14 +54,21 @@ def Regs.upd (r : Regs) (i v : Nat) : Regs := fun j => if j = i then some v else
 def Regs.updateFrom (r other : Regs) : Regs := fun j => match other j with | some v => some v | none => r j
 
 structure Env where
-  /-- row for an absolute pc: `fde_for_address` + `unwind_info_for_address` on `.eh_frame`, else `.debug_frame` -/
-  cfi : Nat → Option Row
-  /-- the same for `.eh_frame` only (`get_cfa` has no `.debug_frame` fallback) -/
+  /-- row for an absolute pc in `.eh_frame` (`fde_for_address` + `unwind_info_for_address`) -/
   cfiEh : Nat → Option Row
+  /-- the same in `.debug_frame` -/
+  cfiDf : Nat → Option Row
   /-- the address lies in the range of a registered object (`debug_info(pc)`, `into_global`) -/
   known : Nat → Bool
   /-- the 8-byte word at an address, if readable -/
   mem : Nat → Option Nat
+
+/-- the row `UnwindContext::new` uses: `.eh_frame` first, `.debug_frame` when `.eh_frame` has none
+(`get_cfa` has no `.debug_frame` fallback: it uses `cfiEh`) -/
+def Env.cfi (env : Env) (pc : Nat) : Option Row :=
+  match env.cfiEh pc with
+  | some row => some row
+  | none => env.cfiDf pc
 
 def wordMod : Nat := 2 ^ 64
 
@@ -102,11 +109,17 @@ def applyRules (env : Env) (snap : Regs) (cfa : Nat) : List (Nat × Rule) → Re
     | .ok (some v) =>
       if reg < regSlots then applyRules env snap cfa rest (next.upd reg v) else .error .panic
 
+/-- the row gives the return-address column the rule `undefined` (`row.register(ra) == Some(RegisterRule::Undefined)`):
+by DWARF convention the frame has no caller (`_start`, `clone`) -/
+def Row.raUndefined (row : Row) : Bool := row.rules.lookup row.ra == some .undefined
+
 /-- `UnwindContext` -/
 structure Ctx where
   regs : Regs
   cfa : Nat
   ra : Nat
+  /-- `UnwindContext::outermost` -/
+  outermost : Bool
   pc : Nat
 
 /-- `UnwindContext::new` -/
@@ -120,39 +133,43 @@ def ctxNew (env : Env) (regs : Regs) (pc : Nat) : Except Fault (Option Ctx) :=
       | .ok cfa =>
         match applyRules env regs cfa row.rules regs with
         | .error f => .error f
-        | .ok next => .ok (some { regs := next, cfa := cfa, ra := row.ra, pc := pc })
+        | .ok next => .ok (some { regs := next, cfa := cfa, ra := row.ra, outermost := row.raUndefined, pc := pc })
 
-/-- `UnwindContext::next` -/
+/-- `UnwindContext::next` (`into_caller_registers`: the restored registers with `rsp` := CFA) -/
 def ctxNext (env : Env) (prev : Ctx) (pc : Nat) : Except Fault (Option Ctx) :=
   ctxNew env (prev.regs.upd rspDwarf prev.cfa) pc
 
-/-- `UnwindContext::return_address` -/
-def Ctx.retAddr (c : Ctx) : Option Nat := c.regs c.ra
+/-- `UnwindContext::return_address`: none in the outermost frame, else the value of the return-address column -/
+def Ctx.retAddr (c : Ctx) : Option Nat := if c.outermost then none else c.regs c.ra
 
 /-- the `while let Some(return_addr) = ucx.return_address()` loop of `DwarfUnwinder::unwind`;
 `fuel` = `MAX_UNWIND_DEPTH - bt.len()` (the depth guard is the first statement of the loop body);
-`visited` = `visited_ips` -/
-def unwindLoop (env : Env) : Nat → Ctx → List Nat → List Nat → Except Fault (List Nat)
+`visited` = `visited_frames`: the (ip, CFA) pairs of the frames listed so far -/
+def unwindLoop (env : Env) : Nat → Ctx → List Nat → List (Nat × Nat) → Except Fault (List Nat)
   | 0, _, bt, _ => .ok bt                            -- no return address, or depth limit reached
   | fuel + 1, c, bt, visited =>
     match c.retAddr with
     | none => .ok bt
     | some ret =>
-      if visited.contains ret then .ok bt            -- `!visited_ips.insert(return_addr)`
-      else if !env.known ret then .error .err        -- `return_addr.into_global(..)?`
+      if !env.known ret then .error .err             -- `return_addr.into_global(..)?`
       else match ctxNext env c ret with
         | .error f => .error f
         | .ok none => .ok bt                          -- no unwind information: the frame is NOT listed
-        | .ok (some c') => unwindLoop env fuel c' (bt ++ [ret]) (ret :: visited)
+        | .ok (some c') =>
+          if visited.contains (ret, c'.cfa) then .ok bt   -- `!visited_frames.insert((return_addr, ucx.cfa))`: a real cycle
+          else unwindLoop env fuel c' (bt ++ [ret]) ((ret, c'.cfa) :: visited)
 
 /-- `DwarfUnwinder::unwind`: the instruction pointers of the backtrace, innermost first -/
 def unwind (env : Env) (regs0 : Regs) (pc0 : Nat) : Except Fault (List Nat) :=
   match ctxNew env regs0 pc0 with
   | .error f => .error f
   | .ok none => .ok [pc0]
-  | .ok (some c) => unwindLoop env (maxUnwindDepth - 1) c [pc0] [pc0]
+  | .ok (some c) => unwindLoop env (maxUnwindDepth - 1) c [pc0] [(pc0, c.cfa)]
 
-/-- the `for _ in 0..frame_num` loop of `restore_registers_at_frame` -/
+/-- `UnwindContext::into_caller_registers`: the registers restored by the rules of this frame, `rsp` := its CFA -/
+def Ctx.callerRegs (c : Ctx) : Regs := c.regs.upd rspDwarf c.cfa
+
+/-- the `for _ in 1..frame_num` loop of `restore_registers_at_frame` -/
 def restoreLoop (env : Env) : Nat → Ctx → Except Fault Ctx
   | 0, c => .ok c
   | k + 1, c =>
@@ -165,16 +182,20 @@ def restoreLoop (env : Env) : Nat → Ctx → Except Fault Ctx
         | .ok none => .error .err                   -- UnwindNoContext
         | .ok (some c') => restoreLoop env k c'
 
-/-- `DwarfUnwinder::restore_registers_at_frame` applied to the current registers -/
+/-- `DwarfUnwinder::restore_registers_at_frame` applied to the current registers: the registers carried INTO frame k,
+i.e. the caller registers of the unwind context of frame k-1 -/
 def restoreRegs (env : Env) (regs0 : Regs) (pc0 : Nat) (k : Nat) : Except Fault Regs :=
   if k = 0 then .ok regs0
   else match ctxNew env regs0 pc0 with
     | .error f => .error f
     | .ok none => .error .err
     | .ok (some c) =>
-      match restoreLoop env k c with
+      match restoreLoop env (k - 1) c with
       | .error f => .error f
-      | .ok ck => .ok (regs0.updateFrom ck.regs)
+      | .ok ck =>
+        match ck.retAddr with
+        | none => .error .err                       -- UnwindTooDeepFrame: frame k does not exist
+        | some _ => .ok (regs0.updateFrom ck.callerRegs)
 
 /-- `DwarfUnwinder::return_address` (what `finish` asks) -/
 def returnAddress (env : Env) (regs0 : Regs) (pc0 : Nat) : Except Fault (Option Nat) :=
@@ -183,16 +204,15 @@ def returnAddress (env : Env) (regs0 : Regs) (pc0 : Nat) : Except Fault (Option 
   | .ok none => .ok none
   | .ok (some c) => .ok c.retAddr
 
-/-- `DebugInformation::get_cfa`: row of the SELECTED pc, registers of the thread AS THEY ARE NOW (frame 0) -/
-def getCfa (env : Env) (regs0 : Regs) (selPc : Nat) : Except Fault Nat :=
+/-- `DebugInformation::get_cfa`: row of the SELECTED pc (`.eh_frame` only), evaluated on the registers restored for the
+selected frame -/
+def getCfa (env : Env) (regs0 : Regs) (pc0 selPc selNum : Nat) : Except Fault Nat :=
   match env.cfiEh selPc with
   | none => .error .err
-  | some row => evalCfa regs0 row
-
-def indexOf? (l : List Nat) (x : Nat) : Option Nat :=
-  match l with
-  | [] => none
-  | y :: ys => if y = x then some 0 else (indexOf? ys x).map (· + 1)
+  | some row =>
+    match restoreRegs env regs0 pc0 selNum with
+    | .error f => .error f
+    | .ok r => evalCfa r row
 
 structure FrameInfo where
   num : Nat
@@ -200,17 +220,18 @@ structure FrameInfo where
   ret : Option Nat
   deriving DecidableEq, Repr
 
-/-- `Debugee::frame_info` without its DWARF-expression part (function lookup and frame base are environment) -/
-def frameInfo (env : Env) (regs0 : Regs) (pc0 selPc : Nat) : Except Fault FrameInfo :=
-  match getCfa env regs0 selPc with
+/-- `Debugee::frame_info` without its DWARF-expression part (function lookup and frame base are environment);
+`selPc`, `selNum` = location and frame number of the exploration context -/
+def frameInfo (env : Env) (regs0 : Regs) (pc0 selPc selNum : Nat) : Except Fault FrameInfo :=
+  match getCfa env regs0 pc0 selPc selNum with
   | .error f => .error f
   | .ok cfa =>
     match unwind env regs0 pc0 with
     | .error f => .error f
     | .ok bt =>
-      match indexOf? bt selPc with
-      | none => .error .panic                       -- `.expect("frame must exists")`
-      | some i => .ok { num := i, cfa := cfa, ret := bt[i + 1]? }
+      match bt[selNum]? with
+      | none => .error .err                         -- FrameNotFound
+      | some _ => .ok { num := selNum, cfa := cfa, ret := bt[selNum + 1]? }
 
 /-- `Debugger::set_frame_into_focus`: the pc the exploration context gets -/
 def setFrame (env : Env) (regs0 : Regs) (pc0 : Nat) (k : Nat) : Except Fault Nat :=
